@@ -618,6 +618,14 @@ static bool run_op(Ctx& x, const Words& w)
       std::unique_ptr<ASIO::ip::tcp::socket> peer(new ASIO::ip::tcp::socket(x.io));
       ASIO_ERROR_CODE ec;
       peer->connect(ep, ec);
+      // the listener is open: a failed connect is the machine running out of loopback ports under many parallel harness
+      // processes, not the library refusing — retry (the same provision as for `bind` at start-up)
+      for (int attempt = 0; ec && attempt < 100 && x.srv->open_acceptors() > 0; ++attempt)
+      {
+        std::this_thread::sleep_for(std::chrono::milliseconds(20));
+        peer.reset(new ASIO::ip::tcp::socket(x.io));
+        peer->connect(ep, ec);
+      }
       if (ec) { line("refused"); return true; }
       {
         // close with RST at the end of the case: thousands of cases must not leave sockets in TIME_WAIT
